@@ -362,4 +362,3 @@ def rules(ctx):
         Rule("R08.c", "finalize_int width/signedness table and its callers", 20, r08c),
         Rule("R08.d", "index/exit casts target unsigned; callers of the two selection functions enumerated", 3, r08d),
     ]
-READY = False
